@@ -65,7 +65,7 @@ def gen_c01(tier, rng):
                 if len(argv) == 4:
                     out.append(pcase("C01", d, {}, argv))
     out += random_argv_cases("C01", rng, 40000 if big else 4000)
-    return out
+    return with_moved(out, rng, 6000 if tier == "thorough" else 1500)
 
 
 VALUES = ["", "v", "a=b", "=", " ", "x y", "--x", "-", "-5", "x\ny", "a\rb", "\xff\x80", "z" * 200, "--", "42", "-17",
@@ -153,11 +153,20 @@ def gen_c02(tier, rng):
             if not v.startswith("-"):
                 out.append(pcase("C02", d, {}, [head, v]))
             out.append(pcase("C02", d, {}, ["--", v]))
-    return out
+    return with_moved(out, rng, 6000 if tier == "thorough" else 1500)
 
 
 ENV_VALUES = [None, "", "v", "--a=b", "-5", "-", "a;b", ";", "x;", "a=b", ";;", "a;;b", " ", "TRUE", "off", "maybe",
-              "\xff;\x01"]
+              "\xff;\x01",
+              # the environment says exactly what the declared default says (option "dv", multi-option d1;d2)
+              "dv", "d1;d2", "cli"]
+
+
+def with_moved(cases, rng, n):
+    """the same parses on a parser object that was move-constructed (PM1) / move-assigned (PM2) after its declaration"""
+    ps = [c for c in cases if "\tP\t" in c]
+    pick = rng.shuffle(ps)[:n]
+    return cases + [c.replace("\tP\t", "\tPM1\t", 1) for c in pick] + [c.replace("\tP\t", "\tPM2\t", 1) for c in pick]
 
 
 def gen_c03(tier, rng):
@@ -190,10 +199,15 @@ def gen_c03(tier, rng):
             if i.env and rng.chance(2, 3):
                 env[i.env] = rng.choice([e for e in ENV_VALUES if e is not None] +
                                         ["".join(chr(1 + rng.below(255)) for _ in range(rng.below(6)))])
+                # now and then the environment repeats the declared default
+                if i.kind == "o" and isinstance(i.dflt, str) and i.dflt and rng.chance(1, 3):
+                    env[i.env] = i.dflt
+                if i.kind == "m" and isinstance(i.dflt, list) and i.dflt and rng.chance(1, 3):
+                    env[i.env] = ";".join(i.dflt)
         al = [t for t in og.alphabet(d) if t.startswith("--") and "zz" not in t and "no-" not in t] + ["val"]
         argv = [rng.choice(al) for _ in range(rng.below(4))] if al else []
         out.append(pcase("C03", d, env, argv))
-    return out
+    return with_moved(out, rng, 3200 if tier == "thorough" else 800)
 
 
 def tcase(tok):
@@ -279,7 +293,7 @@ def gen_c11(tier, rng):
     for _ in range(20000 if big else 2000):
         argv = [rng.choice(al) for _ in range(rng.below(10))]
         out.append(pcase("C11", d, rng.choice([{}, {"NV_A": rng.choice(TRUTHY + FALSY + ["x"])}]), argv))
-    return out
+    return with_moved(out, rng, 6000 if tier == "thorough" else 1500)
 
 
 def icase(pos, i):
@@ -312,7 +326,7 @@ def gen_c12(tier, rng):
         argv = [rng.choice(["v", "w", "", "--opt", "--opt=x", "-o", "--tog", "-t", "--mul", "--", "-", "---x", "a=b"])
                 for _ in range(rng.below(9))]
         out.append(pcase("C12", d, {}, argv))
-    return out
+    return with_moved(out, rng, 12000 if tier == "thorough" else 3000)
 
 
 def hcase(d, steps):
